@@ -37,8 +37,16 @@ template <class T> static int prune(T thr) {
   bool r = st.prune_above_filtration(thr); size_t got = st.num_simplices();
   printf("prune_above_filtration(%g): kept %zu simplices, sublevel complex has %zu; returned %d, expected %d\n", (double)thr, got, want, r, want != vals.size());
   return (got == want && r == (want != vals.size())) ? 0 : 1; }
+// initialize_filtration(true) leaves out exactly the simplices whose value is the type's infinity (max() for integers)
+template <class T> static int ignore_inf(T v) {
+  typedef Gudhi::Simplex_tree<Opt<T>> ST; ST st; T top = std::numeric_limits<T>::has_infinity ? std::numeric_limits<T>::infinity() : std::numeric_limits<T>::max();
+  std::vector<T> vals = {v, top, (T)0, (T)1}; for (size_t k = 0; k < vals.size(); k++) st.insert_simplex({(int)k}, vals[k]);
+  st.initialize_filtration(true); size_t listed = 0; for (auto sh : st.filtration_simplex_range()) { (void)sh; ++listed; }
+  size_t want = 0; for (auto x : vals) want += !(x == top);
+  printf("initialize_filtration(true) with values {%g, top, 0, 1}: %zu simplices listed, %zu expected\n", (double)v, listed, want); return listed == want ? 0 : 1; }
 int main(int argc, char** argv) {
   if (argc < 5) return 3; std::string w = argv[1], t = argv[2];
+  if (w == "ignore") return t == "int" ? ignore_inf<int>(atoi(argv[3])) : ignore_inf<double>(from_bits<double>(argv[3]));
   if (w == "prune") return t == "int" ? prune<int>(atoi(argv[3])) : prune<double>(from_bits<double>(argv[3]));
   if (w == "extended") return argc < 6 ? 3 : (t == "float" ? extended<float>(argv[3], argv[4], argv[5]) : extended<double>(argv[3], argv[4], argv[5]));
   if (t == "double") { double a = from_bits<double>(argv[3]), b = from_bits<double>(argv[4]), x = a; bool r; double want; bool wr;
